@@ -4,7 +4,8 @@ from props.parts import control
 
 THEOREMS = ["C15_monotone", "C15_no_assert", "C15_headers_above_max_ignored", "C15_recv_goaway_accept", "C15_recv_goaway_increase",
             "C15_recv_goaways", "C15_take_error", "C15_graceful_start", "C15_graceful_twice", "C15_goaway_emit",
-            "C15_shutdown_ping_emit", "C15_shutdown_pong", "C15_idle_close", "C15_close_now_closes", "C15_closing_closed",
+            "C15_shutdown_ping_emit", "C15_shutdown_pong", "C15_idle_close_except_known", "C15_idle_close_known_refuted",
+            "C15_known_refuted_run", "C15_close_now_closes", "C15_closing_closed",
             "C15_nonvacuous", "C15_nonvacuous_graceful"]
 PARTIAL = [
     "proved on the model for ALL label sequences: emitted GOAWAY last ids never increase and are >= every peer stream processed "
@@ -16,15 +17,15 @@ PARTIAL = [
     "streams above the peer's id fail with the peer's reason (modelled as output OStreamsGoAway), that no new stream is started after "
     "GOAWAY (send_request / push_request) — two defects of exactly this kind were found by the oracle and repaired "
     "(corpus/control/*.json); liveness of the drain (every in-flight stream eventually ends) is not stated;",
-    "oddity kept as is: with last_processed_id = 2^31-1 should_close_on_idle is false for ever (GoAway::should_close_on_idle compares with "
-    "StreamId::MAX), so C15_idle_close carries the hypothesis l <> MAX_ID",
+    "known finding KF-C15-1: with last_processed_id = 2^31-1 should_close_on_idle is false for ever (GoAway::should_close_on_idle compares "
+    "with StreamId::MAX): C15_idle_close_except_known carries the hypothesis l <> MAX_ID, C15_idle_close_known_refuted / "
+    "C15_known_refuted_run show the close never starts otherwise; the corpus replay is re-run on every check and reported as KNOWN-FINDING",
 ]
 
 
 def correspond(rep, tier, seed):
     rep.partial.extend(PARTIAL)
     rep.assumptions.append("poll2 order (no frame taken while a GOAWAY is pending or close_now is set): Stuck guards of the model, checked by the lock-step")
-    rep.assumptions.append("handle_poll2_result is never handed a stream error with Initiator::User by the stream layer (its debug_assert; label_ok)")
     corpus = control.corpus_scenarios()
     scs, failing = control.correspond_control(rep, tier, seed + 7, extra=corpus)
     n_viol = control.oracle_control(rep, scs, "C15")
